@@ -33,6 +33,15 @@ fn table(id: &str) -> Option<(RunFn, ReplayFn)> {
     })
 }
 
+/// marks a case that was found in a binary other than the default one, so that its replay runs there
+fn with_profile(mut case: serde_json::Value) -> serde_json::Value {
+    let p = current_profile();
+    if p != "checked" {
+        case["profile"] = serde_json::json!(p);
+    }
+    case
+}
+
 fn exit_status_text(st: &std::process::ExitStatus) -> String {
     use std::os::unix::process::ExitStatusExt;
     match (st.code(), st.signal()) {
@@ -114,7 +123,7 @@ fn supervise(id: &str, args: &[String]) -> ! {
             property: id.to_string(),
             driver: "supervisor".into(),
             class: "hang".into(),
-            case: serde_json::json!({"kind": "process-death", "tag": tag, "text": body}),
+            case: with_profile(serde_json::json!({"kind": "process-death", "tag": tag, "text": body})),
             expected: "evaluation terminates (lexing, parsing and compiling always do; the VM runs under an instruction budget)".into(),
             observed: "no progress for minutes in the check and for 60 s alone in a fresh process".into(),
         };
@@ -155,7 +164,7 @@ fn supervise(id: &str, args: &[String]) -> ! {
             Err(_) => false,
         };
         if died {
-            let case = serde_json::json!({"kind": "process-death", "tag": tag, "text": body});
+            let case = with_profile(serde_json::json!({"kind": "process-death", "tag": tag, "text": body}));
             let v = Violation {
                 property: id.to_string(),
                 driver: "supervisor".into(),
@@ -190,7 +199,31 @@ fn main() {
     let id = args[0].clone();
     let is_child = args.iter().any(|a| a == "--child");
     let is_inner = args.iter().any(|a| a == "--inner");
-    if !is_child && !is_inner {
+    let supervised_inner = args.iter().any(|a| a == "--supervised");
+    // a replay of a case that was found in the binary of another build profile runs in that binary
+    if !is_child {
+        if let Some(pos) = args.iter().position(|a| a == "--replay") {
+            if let Some(path) = args.get(pos + 1) {
+                let profile = std::fs::read_to_string(path)
+                    .ok()
+                    .and_then(|t| serde_json::from_str::<serde_json::Value>(&t).ok())
+                    .and_then(|v| v.get("case").and_then(|c| c.get("profile")).and_then(|p| p.as_str()).map(|s| s.to_string()));
+                if let Some(profile) = profile {
+                    if profile != current_profile() {
+                        let exe = verif_dir().join("harness/target").join(&profile).join("nlv");
+                        match std::process::Command::new(&exe).args(&args).status() {
+                            Ok(st) => std::process::exit(st.code().unwrap_or(2)),
+                            Err(e) => {
+                                eprintln!("cannot run {}: {e}", exe.display());
+                                std::process::exit(2)
+                            }
+                        }
+                    }
+                }
+            }
+        }
+    }
+    if !is_child && (!is_inner || supervised_inner) {
         supervise(&id, &args);
     }
     args.retain(|a| a != "--child");
@@ -218,6 +251,7 @@ fn main() {
                 };
             }
             "--inner" => inner = true,
+            "--supervised" => {}
             "--replay" => {
                 i += 1;
                 replay = Some(args.get(i).cloned().unwrap_or_else(|| usage()));
